@@ -53,13 +53,17 @@ CHECKS = {
                      "compilations is sampled.",
                 note=TB + "; coq/hw/Npu.v hardware footprint model is trusted (modelled from Vela's address code and register "
                      "definitions); tools/tflsum.py reads the extents from the output file"),
-    "C03": dict(cat="translation_validation", ref="7/C03", technique="Coq-proved def-use validator (check_defuse_sound) run on decoded command streams of real compilations",
+    "C03": dict(cat="translation_validation", ref="7/C03", technique="Coq-proved def-use validators (check_defuse_sound per command stream, check_inference_sound over the operator sequence of the output model) run on the artefacts of real compilations",
                 text="Theorem check_defuse_sound (Coq): if the extracted checker accepts a decoded stream with the identities the "
                      "compiler intends, then in the byte-level run every byte of every IFM/IFM2 element, weight, scale and LUT range "
                      "an operation consumes carries, at that moment, exactly the intended identity (tensor, logical offset) written "
                      "by an earlier DMA/NPU operation, a constant of the file or the CPU side - stale rolling-buffer rows, "
-                     "uninitialised and foreign-tensor bytes are rejected (fm_tsegs_cover, read_elements_defined). Run on every "
-                     "stream of generated networks across configurations plus a corpus; sampled compilations.",
+                     "uninitialised and foreign-tensor bytes are rejected (fm_tsegs_cover, read_elements_defined). Theorems "
+                     "check_inference_sound, npu_top_op_spec, stream_writes_retagged: the same discipline over the operators of the "
+                     "output file (network inputs define, CPU operators demand and define, an Ethos-U operator demands its inputs, "
+                     "every arena byte its stream writes loses its identity, its outputs are defined only where its stream writes; the "
+                     "network outputs are demanded at the end), so a tensor clobbered between two operators is rejected. Run on every "
+                     "stream / output model of generated networks across configurations plus a corpus; sampled compilations.",
                 note=TB + "; hw/Npu.v footprint model trusted; intended identities are read from the compiler's own high-level "
                      "command stream by tools/wrap.py (run-time wrapper); views of one buffer with inconsistent strides are not "
                      "distinguished (C06/C10)"),
